@@ -249,6 +249,7 @@ partial def stressLoop (h : IO.FS.Stream) (st : Stats) (caseNo : String) (lineNo
       (if getNat ofs "left" == some 0 then [] else ["C15.no_goroutine_left"]) ++
       (if (getNat ofs "unclosed").getD 0 == 0 then [] else ["C10.close_from_callback_completes"]) ++
       (if (getNat ofs "timeouts").getD 0 == 0 then [] else ["C15.timeout_is_the_subscribers_own", "C06.exactly_once_if_receiving"]) ++
+      (if (getNat ofs "latedrop").getD 0 == 0 then [] else ["C15.timeout_is_the_subscribers_own"]) ++
       (if getNat ofs "races" == some 0 then [] else ["C10.no_data_race"])
     unless clauses.isEmpty do
       IO.println s!"DIFF case={caseNo} line={lineNo} fields=stress model=[dup=0 foreign=0 rejected=0 missing=0 left=0 races=0] impl=[{obs}] op=[{op}]"
